@@ -3,6 +3,7 @@ import SaModel.Lemmas.C18Assembled
 import SaModel.Lemmas.C18ReadAs
 import SaModel.Lemmas.C18EraseAs
 import SaModel.Lemmas.C18ReadNoCtx
+import SaModel.Lemmas.C18OwnReadAs
 import SaModel.Lemmas.C18Push
 import SaModel.Lemmas.C18OwnPush
 /-
@@ -462,6 +463,81 @@ example :
       some (.error (.errCtx "Out of bounds access" [("data_type", "FixedSizeList(..)"), ("field", "$.c.x")])) ∧
     readRecord Fixes.all exFslTarget ⟨"c", false, []⟩ exFsl 1 = some (.error (.err "Out of bounds access")) := by
   decide
+
+/-! ### the blamed reader is the one whose OWN step failed (reader-side blame, operational form)
+
+Vocabulary (Lemmas/C18OwnRead.lean): an `RCall` is what a reader is asked (`deserialize_any`, or the typed read a target
+issues); `rBody af fx p c a idx` is the code of the reader of the view `a` at path `p` for that call at row `idx` WITHOUT
+its own `.ctx(self)` wrapper, the reads of the child readers being the real, wrapped ones; `OwnFailsR af fx p a c idx msg`:
+that body returns the PLAIN error `msg`.  With the code that exists child reads never return plain errors
+(`read_not_plain`), so a plain error of the body is raised by the reader's own code (bounds / offset / type-id checks,
+the visitor refusing the value, an unsupported method), not forwarded from a child reader. -/
+
+/-- the body copies are the bodies: `deserialize_any` is the wrapper around `anyBody` … -/
+theorem readAnyA_is_wrapped_body (fx : Fixes) (p : String) (a : Arr) (idx : Nat) :
+    readAnyA fx p a idx = ctx (rann p a) (rBody AnnFixes.all fx p .any a idx) := by
+  cases a <;> (unfold readAnyA rBody anyBody; rfl)
+
+/-- … and every typed read that is not transparent (`any`, `IgnoredAny`, newtype) is the wrapper around `asBody` -/
+theorem readAsA_is_wrapped_body (fx : Fixes) (t : Target) (p : String) (a : Arr) (idx : Nat)
+    (h1 : t ≠ .any) (h2 : t ≠ .ignored) (h3 : ∀ t', t ≠ .newtype t') :
+    readAsA AnnFixes.all fx p t a idx = ctx (rann p a) (rBody AnnFixes.all fx p (.as t) a idx) := by
+  cases t with
+  | any => exact absurd rfl h1
+  | ignored => exact absurd rfl h2
+  | newtype t' => exact absurd rfl (h3 t')
+  | seq t' => unfold readAsA rBody asBody; cases a <;> rfl
+  | enum bi vs => unfold readAsA rBody asBody; cases a <;> rfl
+  | tuple ts => unfold readAsA rBody asBody tupleVisitA; rfl
+  | tupleStruct ts => unfold readAsA rBody asBody tupleVisitA; rfl
+  | struct tfs => unfold readAsA rBody asBody structVisitA; rfl
+  | _ => unfold readAsA rBody asBody; rfl
+
+/-- an own failure is blamed on the reader itself -/
+theorem own_failure_blames_reader (fx : Fixes) (t : Target) (p : String) (a : Arr) (idx : Nat) (msg : String)
+    (h1 : t ≠ .any) (h2 : t ≠ .ignored) (h3 : ∀ t', t ≠ .newtype t')
+    (h : OwnFailsR AnnFixes.all fx p a (.as t) idx msg) :
+    readAsA AnnFixes.all fx p t a idx = .error (.errCtx msg (rann p a)) := by
+  rw [readAsA_is_wrapped_body fx t p a idx h1 h2 h3, h]; simp [ctx, rann]
+
+/-- **read_error_deepest.** Every annotated error of `deserialize_any` or of a typed read (any target, any path, any
+view, any row) carries the annotation `rann p' a'` of a reader of the subtree — all positions of the reader of `a'` at
+`p'` are positions of the reader read from — whose OWN step failed with the very message of the error, on some call at
+some row: never merely the forwarded error of a child reader. -/
+theorem read_error_deepest (fx : Fixes) (t : Target) (p : String) (a : Arr) (idx : Nat) (msg : String)
+    (ann : List (String × String)) :
+    (readAnyA fx p a idx = .error (.errCtx msg ann) →
+      ∃ p' a' c idx', ann = rann p' a' ∧ (∀ q ∈ rpositions p' a', q ∈ rpositions p a) ∧
+        OwnFailsR AnnFixes.all fx p' a' c idx' msg) ∧
+    (readAsA AnnFixes.all fx p t a idx = .error (.errCtx msg ann) →
+      ∃ p' a' c idx', ann = rann p' a' ∧ (∀ q ∈ rpositions p' a', q ∈ rpositions p a) ∧
+        OwnFailsR AnnFixes.all fx p' a' c idx' msg) :=
+  ⟨readAnyA_raisedR AnnFixes.all fx a p idx msg ann, readAsA_raisedR AnnFixes.all fx t p a idx msg ann⟩
+
+/-- the record level: an error of `Deserializer::get(idx)` + `T::deserialize` is a panic or the own failure of the root
+reader `$` or of a reader below it -/
+theorem readRecord_error_deepest (fx : Fixes) (t : Target) (fm : FieldMeta) (col : Arr) (idx : Nat) (e : Fail)
+    (h : readRecordA AnnFixes.all fx t fm col idx = some (.error e)) :
+    (∃ site, e = .panic site) ∨ ∃ msg p' a' c idx', e = .errCtx msg (rann p' a') ∧
+      (∀ q ∈ rpositions p' a', q ∈ rpositions "$" (record fm col)) ∧ OwnFailsR AnnFixes.all fx p' a' c idx' msg := by
+  unfold readRecordA at h
+  split at h
+  · cases h
+  · simp only [Option.some.injEq] at h
+    cases e with
+    | panic s => exact .inl ⟨s, rfl⟩
+    | err msg => exact absurd h (readAsA_not_plain fx t _ _ idx msg)
+    | errCtx msg ann =>
+      obtain ⟨p', a', c, i', rfl, hs, ho⟩ := readAsA_raisedR AnnFixes.all fx t "$" _ idx msg ann h
+      exact .inr ⟨msg, p', a', c, i', rfl, hs, ho⟩
+
+/-- non-vacuity: the two witnesses above — the union reader's own variant lookup fails (`unknown variant`), the
+fixed-size-list reader's own bounds check fails — and the errors of the record reads are exactly these readers' -/
+example :
+    OwnFailsR AnnFixes.all Fixes.all "$.c" exUnion (.as (.enum false (.cons "x" (.newtype .any) .nil))) 0 "unknown variant" ∧
+    OwnFailsR AnnFixes.all Fixes.all "$.c.x" (.fixedSizeList 1 none 2 ⟨"item", false, []⟩ (.prim .int32 none [1, 2]))
+      (.as (.seq .any)) 1 "Out of bounds access" := by
+  constructor <;> (unfold OwnFailsR; decide)
 
 /-- non-vacuity of `reader_paths_assembled` / `read_error_position`: a map column below a list -/
 example :
